@@ -770,3 +770,20 @@ PROPS["C04"]["rule"] += (" X04: connections of 2..4 pipelined requests (Connecti
                          "handlers use declared-length streams ending early with io.EOF at 0, 1, n-1 bytes, at a whole number of 4096-byte buffers or anywhere, "
                          "ending with a read error, returning (n, io.EOF) together, exact and longer streams, chunked streams, io.LimitedReader, HEAD, "
                          "SetConnectionClose, Hijack, and a malformed last request answered by Serve itself.")
+# X03: totality of the public parsers, error responses well-formed
+_upd("C03", "Extension X03: the public parsers of untrusted data are re-stated with the index/slice/table expressions of the Go source (fault = none, "
+     "fuel for loops; Model/NoFault*.lean) and proved total for every input: URI.Parse incl. splitHostURI, user-info cut, query/fragment cut and "
+     "normalizePath (uri_parse_total, split_host_uri_total, normalize_path_total), percent decoding and Args.ParseBytes (decode_arg_total, "
+     "args_parse_total), Cookie.ParseBytes and request cookie lists (cookie_parse_total, request_cookies_total), ParseByteRange (range_parse_total), "
+     "IsBadTrailer (trailer_parse_total, equal to the list model), RequestHeader.MultipartFormBoundary (multipart_boundary_total); and every non-200 "
+     "response of the loop model is on the wire exactly one 4xx message with Connection: close under the strict decoder of C04 "
+     "(error_response_wellformed; bytes compared with the real writeErrorResponse).",
+     "Public parsers of URIs/cookies are covered under C17/C07; client response path under C11.",
+     "Public parsers: each checked model is diffed against the real code under recover() on hostile input and compared with the list model of "
+     "C07/C08/C17 on every case; their equality is proved only for IsBadTrailer. Not re-stated with checked indexing (sampled tie only): the "
+     "request-head / body / trailer / response readers of the loop model, utils.CleanPath's stack buffer; Go's time and mime/multipart are trusted.")
+PROPS["C03"]["rule"] += (" Public parsers (ops nf*): every string of <=3 (thorough <=4) tokens over a hostile alphabet per parser behind several heads, "
+                         "every truncation / single deletion / single hostile replacement and random mutations of valid inputs, runs of one byte of "
+                         "length 63..65, 127..129, 4095..4097; malformed streams for the byte-exact error response (nferr); Engine.Serve with the H2C sniffer "
+                         "on/off around the HTTP/2 client preface (nfh2c); chunked bodies whose first k chunk sizes sum exactly to the limit; "
+                         "unallocatable Content-Length / chunk sizes on the client reader.")
